@@ -72,10 +72,24 @@ func b01(b bool) int {
 	return 0
 }
 
+// preFeed: bytes the child wrote on the primary screen before the Vaxis application started
+var preFeed string
+
 func newSession(r *hx.Run, rng *gen.Rng, id string, w, h int, rgb, su, ew, sync, uc bool) (*session, error) {
 	emu := term.VerifNew(w, h)
 	emu.OSC8 = true
 	emu.Focus()
+	if preFeed != "" {
+		parser := ansi.NewParser(strings.NewReader(preFeed))
+		for seq := range parser.Next() {
+			if _, ok := seq.(ansi.EOF); ok {
+				break
+			}
+			emu.VerifFeed(seq)
+			parser.Finish(seq)
+		}
+		emu.VerifTakeReplies()
+	}
 	fc := fakeconsole.New(w, h, fakeconsole.Caps{})
 	// every sequence Vaxis writes during start-up, with the reply the emulator gave to it
 	var startup [][2]string
@@ -511,6 +525,25 @@ func run(r *hx.Run) error {
 			return err
 		}
 		r.Count("scenario-lp-semicolon")
+	}
+	// F112c: a shell left a coloured line on the primary screen; the application (alternate screen)
+	// draws, the host resizes the emulator, the application redraws
+	{
+		preFeed = "\x1b[44mabcd\r\n\x1b[m"
+		s, err := newSession(r, rng, "resize-pen", 4, 2, false, false, false, false, true)
+		preFeed = ""
+		if err != nil {
+			return err
+		}
+		win := s.vx.Window()
+		win.SetCell(0, 1, ch("y"))
+		s.render(false)
+		s.resize(5, 2)
+		win = s.vx.Window()
+		win.SetCell(0, 0, ch("x"))
+		s.render(false)
+		s.close()
+		r.Count("scenario-resize-pen")
 	}
 	// Random histories
 	hist, maxW, maxH, frames := 300, 8, 4, 6
